@@ -247,7 +247,7 @@ CHECKS = {
              "report, explain_matching with the full-precision report for every explained disposal, get_fx_rate with the "
              "rate table, parse/convert outputs are re-read. "
              "Sessions under the embedded exemption table (no config file) with ledgers reaching outside it compare pipelined answers with a second server given the same requests one at a time, and with the library under the same table. "
-             "Requests include dividends-only ledgers, and pool ledgers carry capital events after 30-day shapes.",
+             "Requests include dividends-only ledgers, and pool ledgers carry capital events after 30-day shapes. Deep sessions write 250-600 requests in ONE burst so that all of them are in flight at once (answers are always collected before the input is closed: closing stdin is MCP's shutdown signal and rmcp drops calculations still in flight at that moment, which the property does not forbid).",
         note="Open findings F12 (rmcp drops unknown methods / non-object arguments and exits on a non-JSON line) and F8 (overflow "
              "panic leaves one request unanswered) live in a labelled envelope class so the main sessions stay clean.",
         ref="DESIGN.md §3 C20, §4 F8/F12/F13"),
